@@ -423,7 +423,7 @@ func (g *litGen) collect(term string, t types.Type, depth int) {
 		g.q(fmt.Sprintf("(s.len %s)", term))
 		g.lens = append(g.lens, fmt.Sprintf("(s.len %s)", term))
 		for k := 0; k < maxElems; k++ {
-			g.collect(fmt.Sprintf("(select (s.arr %s) (+ (s.off %s) %d))", term, term, k), u.Elem(), depth+1)
+			g.collect(fmt.Sprintf("(select (s.arr %s) %d)", term, k), u.Elem(), depth+1)
 		}
 	case *types.Pointer:
 		g.q(term)
@@ -510,7 +510,7 @@ func (g *litGen) literal(term string, t types.Type, depth int) string {
 		}
 		var es []string
 		for k := 0; k < n; k++ {
-			es = append(es, g.literal(fmt.Sprintf("(select (s.arr %s) (+ (s.off %s) %d))", term, term, k), u.Elem(), depth+1))
+			es = append(es, g.literal(fmt.Sprintf("(select (s.arr %s) %d)", term, k), u.Elem(), depth+1))
 		}
 		return fmt.Sprintf("%s{%s}", g.typeExpr(t), strings.Join(es, ", "))
 	case *types.Pointer:
